@@ -257,12 +257,13 @@ Definition outcomes (host handler : str) (script : list fault) (toks : list val)
 
 (** ** Predicates used by the theorems *)
 
-(** the connection invariant: whatever is cached has no unread input, and a closed connection
-    has no response attached *)
+(** the connection invariant: whatever is cached has no unread input, unless a response is
+    still attached (then the next use raises ResponseNotReady and clears the connection:
+    [pending_cleared]); a closed connection has no response attached *)
 Definition conn_clean (c : hconn) : bool :=
   match h_sock c with
   | None => negb (h_pending c)
-  | Some s => match s_inbuf s with [] => true | _ => false end
+  | Some s => h_pending c || match s_inbuf s with [] => true | _ => false end
   end.
 
 Definition inv (st : state) : bool :=
